@@ -140,6 +140,8 @@ def show(v: Any) -> str:
     if k == "partial":
         args = [show(v[1])] + [show(a) for a in v[2]] + [f"{kk}={show(vv)}" for kk, vv in v[3]]
         return f"partial({', '.join(args)})"
+    if k == "mut":
+        return f"mutated({show(v[1])})"
     if k == "when":
         return f"({show(v[2])} when " + " and ".join(show(c) for c in v[1]) + ")"
     if k == "phi":
@@ -1609,12 +1611,23 @@ class Interp:
                     s2_ = self.call(("attr", cur_, "append"), (v_,), (), e, s_, out, None)[0][1]
                     res_.append((NONE, s2_.set(key_, ("list", cur_[1] + (v_,)))))
                 return res_
+        # any other in-place change of a display held by a local (extend, insert, update, pop, ...): its contents are no longer
+        # the literal's - the local becomes an opaque "mutated container" (a test of its length / truth is undecided)
+        mut_key = None
+        if isinstance(f, ast.Attribute) and f.attr in _CONTAINER_MUTATORS and isinstance(f.value, ast.Name):
+            k_ = self._name_key(f.value.id)
+            c_ = st.env.get(k_)
+            if isinstance(c_, tuple) and c_ and c_[0] in ("list", "dict", "set"):
+                mut_key = (k_, c_)
         for cv, s, meta in callee_vals:
             for vs, s2 in self._seq(e.args, s, out):
                 kw_exprs = [k.value for k in e.keywords]
                 for kvs, s3 in self._seq(kw_exprs, s2, out):
                     kwargs = tuple((k.arg or "**", v) for k, v in zip(e.keywords, kvs))
-                    res.extend(self.call(cv, tuple(vs), kwargs, e, s3, out, meta))
+                    got = self.call(cv, tuple(vs), kwargs, e, s3, out, meta)
+                    if mut_key is not None:
+                        got = [(v_, s_.set(mut_key[0], ("mut", mut_key[1], self.tag(e)))) for v_, s_ in got]
+                    res.extend(got)
         return res
 
     def call(self, cv: Value, args: Tuple[Value, ...], kwargs, node: ast.Call, st: State, out: Outcome, meta=None):
